@@ -36,6 +36,7 @@ from joblib.parallel import Parallel
 
 WATCHDOG = 12.0   # seconds without any event while something must happen => hang
 SETTLE = 0.03     # how long a probe thread is given to show up at an observable point
+PARK_HOLD = 0.25  # how long a consumer action may run while a worker thread is kept parked at a gate
 
 
 class HarnessBug(Exception):
@@ -164,6 +165,8 @@ class Engine:
         self.cur = None
         self.gen_holder = []
         self.recall_holder = []
+        self.parked_gates = []
+        self.park_ok = None      # name of the only worker thread that may be left parked right now
 
     # ---- trace --------------------------------------------------------------
     def ev(self, kind, **kw):
@@ -192,6 +195,7 @@ class Engine:
                 key = (name, occurrence)
                 self.held[key] = release
                 self.ev("gate_hit", gate=name, at=occurrence)
+                g["_thread"] = threading.current_thread().name
                 self.evq.put(("gate", key, g))
                 if not release.wait(WATCHDOG * 3):
                     self.problems.append("harness: gate %r never released" % (key,))
@@ -364,6 +368,12 @@ class Engine:
         return True
 
     def service_gate(self, key, g):
+        if g.get("park") and self.park_ok and g.get("_thread") == self.park_ok:
+            # leave the (worker) thread parked inside harness-owned code - it may hold joblib's dispatch lock - until
+            # the NEXT consumer action has been started: "the consumer closes / pulls while a callback is dispatching"
+            self.parked_gates.append(key)
+            self.ev("gate_parked", gate=key[0], at=key[1])
+            return
         started = []
         for op in g.get("do", []):
             if op[0] == "c":
@@ -386,6 +396,19 @@ class Engine:
         self.held.pop(key).set()
         # the probes finish on their own; their worker_done events are consumed by later waits
 
+    def release_parked(self, wait_m=0.0):
+        """Release the parked threads; before that give the consumer action just started `wait_m` seconds to finish."""
+        if not self.parked_gates:
+            return
+        t_end = time.time() + wait_m
+        while time.time() < t_end and self.m_busy is not None:
+            time.sleep(0.002)
+        for key in self.parked_gates:
+            ev = self.held.pop(key, None)
+            if ev is not None:
+                ev.set()
+        self.parked_gates = []
+
     def dump_frames(self):
         out = {}
         names = {t.ident: t.name for t in threading.enumerate()}
@@ -407,6 +430,8 @@ class Engine:
             except BaseException as e:
                 res = ("raise", e)
             self.m_result = res
+            # the instant the caller-side action really returned (the driver may notice it later)
+            self.m_done_seq = self.ev("m_return", name=name, outcome=res[0])["seq"]
             self.m_busy = None
             self.evq.put(("m_done", name))
 
@@ -424,6 +449,7 @@ class Engine:
         for key, ev in list(self.held.items()):
             ev.set()
         self.held.clear()
+        self.parked_gates = []
         self.gates_plan = []
 
 
@@ -503,9 +529,21 @@ def _reset_call(eng, k, call):
     eng.sync_depth = 0
 
 
-def _complete_one(eng, job, late=False):
+def _complete_one(eng, job, late=False, allow_park=False):
+    """Complete one job in a worker thread and wait for its callback to return.  With allow_park the wait also ends
+    when the worker got parked at a gate (it stays there until the next consumer action has been started)."""
+    eng.park_ok = ("W%d" % job.jid) if allow_park else None
     eng.start_worker(job, late=late)
-    return eng.wait_event(lambda: job.state == "done", "callback of job %d to return" % job.jid)
+    what = "callback of job %d to return" % job.jid
+    try:
+        while True:
+            if not eng.wait_event(lambda: job.state == "done" or eng.parked_gates, what):
+                return False
+            if job.state == "done" or allow_park:
+                return True
+            eng.release_parked()
+    finally:
+        eng.park_ok = None
 
 
 def _drain(eng, until, what):
@@ -592,6 +630,7 @@ def _run_call(eng, par, k, call, gen_mode):
     ordered = eng.spec["return_as"] == "generator"
 
     def free_m(why):
+        eng.release_parked()
         if eng.m_busy is None:
             collect()
             return True
@@ -609,7 +648,8 @@ def _run_call(eng, par, k, call, gen_mode):
         rec["pending"] = None
         kind2, val2 = eng.m_result
         eng.m_result = None
-        entry = {"op": name, "seq": eng.ev("consumer_done", op=name, outcome=kind2)["seq"]}
+        eng.ev("consumer_done", op=name, outcome=kind2)
+        entry = {"op": name, "seq": eng.m_done_seq}
         if name == "next":
             if kind2 == "ok":
                 rec["results"].append(val2)
@@ -655,10 +695,12 @@ def _run_call(eng, par, k, call, gen_mode):
         if eng.hang:
             break
         op = step[0]
+        if op in ("c", "late"):
+            eng.release_parked()
         if op == "c":
             fl = eng.inflight()
             if fl:
-                if not _complete_one(eng, fl[step[1] % len(fl)]):
+                if not _complete_one(eng, fl[step[1] % len(fl)], allow_park=True):
                     break
                 rec["steps_done"] += 1
             if eng.m_busy is None:
@@ -680,6 +722,7 @@ def _run_call(eng, par, k, call, gen_mode):
             avail = available() if ordered else None
             eng.ev("consumer_start", op="next", available=avail)
             eng.m_start("next", lambda: next(eng.gen_holder[0]))
+            eng.release_parked(PARK_HOLD)
             if avail:
                 # promptness: must return with no further completion issued
                 if not eng.m_wait("next() whose result and all earlier ones are complete"):
@@ -696,10 +739,12 @@ def _run_call(eng, par, k, call, gen_mode):
             rec["pending"] = "exhaust"
             eng.ev("consumer_start", op="exhaust")
             eng.m_start("exhaust", lambda: list(eng.gen_holder[0]))
+            eng.release_parked(PARK_HOLD)
         elif op == "close":
             rec["pending"] = "close"
             eng.ev("consumer_start", op="close")
             eng.m_start("close", lambda: eng.gen_holder[0].close())
+            eng.release_parked(PARK_HOLD)
             if not eng.m_wait("generator.close() to return"):
                 break
             collect()
@@ -710,6 +755,7 @@ def _run_call(eng, par, k, call, gen_mode):
                 del eng.gen_holder[:]
                 gc.collect()
             eng.m_start("drop", _drop)
+            eng.release_parked(PARK_HOLD)
             if not eng.m_wait("gc of the dropped generator to return"):
                 break
             collect()
@@ -726,9 +772,11 @@ def _run_call(eng, par, k, call, gen_mode):
                 eng.recall_holder.append(r)   # wrongly accepted: keep it alive, never consume it
                 return repr(r)
             eng.m_start("recall", _recall)
+            eng.release_parked(PARK_HOLD)
             if not eng.m_wait("overlapping Parallel call to return or raise"):
                 break
             collect()
+    eng.release_parked()
     if not eng.hang and not state["finished"]:
         if free_m("previous consumer action to return") and not state["finished"]:
             rec["pending"] = "exhaust"
